@@ -85,6 +85,7 @@ type half struct {
 	nframes int
 	sent    []frameRec // as written by the sending end
 	dlv     []frameRec // as handed to the receiving end
+	passed  int        // bytes of the frame being assembled that were already passed through
 	held    []byte     // swap: delivered after the next frame
 	lastAt  int64
 	// frame boundaries of the delivered byte stream (reach probe: a read
@@ -136,6 +137,7 @@ type end struct {
 	rdl    time.Time
 	wdl    time.Time
 	rt, wt *simrt.Timer
+	midTO  int // read deadlines that expired after part of a frame had been consumed
 }
 
 // simNet is the per-run network.
@@ -145,7 +147,6 @@ type simNet struct {
 	faults    []WireFault
 	latencyNs int64
 	capBytes  int
-	recorded  [][]byte // entry/checkpoint frames seen on closed-or-older links (for splice)
 	fired     int
 	onAccept  func(c net.Conn, l *link)
 	dialFail  map[int]bool // global dial attempt indexes that fail
@@ -229,6 +230,7 @@ func (e *end) Read(p []byte) (int, error) {
 			simrt.Count("probe.read_deadline_expired", 1)
 			if h.consumed != 0 && !h.bounds[h.consumed] {
 				simrt.Count("probe.read_deadline_expired_mid_frame", 1)
+				e.midTO++
 				simrt.Event("READ-TIMEOUT-MID-FRAME %s side=%s", e.l.name(), e.who())
 			}
 			return true
@@ -294,8 +296,11 @@ func (e *end) Close() error {
 		return nil
 	}
 	e.closed = true
-	e.l.half[e.side].wclosed = true
-	e.l.half[1-e.side].rclosed = true
+	if !e.l.half[e.side].blackh {
+		// on a half-open link neither FIN nor RST reaches the other end
+		e.l.half[e.side].wclosed = true
+		e.l.half[1-e.side].rclosed = true
+	}
 	if e.rt != nil {
 		e.rt.Stop()
 	}
@@ -410,23 +415,62 @@ func parseFrame(idx int, fr []byte, dir int) frameRec {
 	return rec
 }
 
-func (h *half) extract() {
-	for len(h.asm) >= 4 {
-		n := int(binary.BigEndian.Uint32(h.asm[:4]))
-		if n < 1 || n > 200<<20 {
-			panic(fmt.Sprintf("HARNESS: sender wrote an impossible frame length %d on %s dir %d", n, h.l.name(), h.dir))
+// faultFor returns the adversary action planned for frame idx of this half.
+func (h *half) faultFor(idx int) *WireFault {
+	n := h.l.n
+	for i := range n.faults {
+		x := &n.faults[i]
+		if x.Reader == h.l.reader && x.Conn == h.l.idx && x.Dir == h.dir && x.Frame == idx {
+			return x
 		}
-		if len(h.asm) < 4+n {
+	}
+	return nil
+}
+
+// cutThrough: a frame the adversary leaves alone on a zero-latency link is
+// passed on byte by byte as it is written (a reader can observe a partially
+// arrived frame, as on a real socket); otherwise whole frames are delivered.
+func (h *half) cutThrough(idx int) bool {
+	return h.l.n.latencyNs == 0 && h.held == nil && len(h.q) == 0 && !h.blackh && h.faultFor(idx) == nil
+}
+
+func (h *half) extract() {
+	for {
+		ct := h.cutThrough(h.nframes)
+		avail := len(h.asm)
+		need := -1
+		if avail >= 4 {
+			n := int(binary.BigEndian.Uint32(h.asm[:4]))
+			if n < 1 || n > 200<<20 {
+				panic(fmt.Sprintf("HARNESS: sender wrote an impossible frame length %d on %s dir %d", n, h.l.name(), h.dir))
+			}
+			need = 4 + n
+		}
+		end := avail
+		if need >= 0 && end > need {
+			end = need
+		}
+		if ct && end > h.passed {
+			h.rbuf = append(h.rbuf, h.asm[h.passed:end]...)
+			h.passed = end
+		}
+		if need < 0 || avail < need {
 			return
 		}
-		fr := make([]byte, 4+n)
-		copy(fr, h.asm[:4+n])
-		h.asm = h.asm[4+n:]
-		h.onFrame(fr)
+		fr := make([]byte, need)
+		copy(fr, h.asm[:need])
+		h.asm = h.asm[need:]
+		through := h.passed == need
+		if h.passed != 0 && !through {
+			panic("HARNESS: frame partially passed through")
+		}
+		h.passed = 0
+		h.onFrame(fr, through)
 	}
 }
 
-func (h *half) deliver(fr []byte, forged bool) {
+// noteDelivered records a frame in the delivery tap.
+func (h *half) noteDelivered(fr []byte, forged bool) {
 	idx := len(h.dlv)
 	rec := parseFrame(idx, fr, h.dir)
 	rec.Forged = forged
@@ -438,6 +482,10 @@ func (h *half) deliver(fr []byte, forged bool) {
 	if !forged {
 		h.bounds[h.dlvBytes] = true
 	}
+}
+
+func (h *half) deliver(fr []byte, forged bool) {
+	h.noteDelivered(fr, forged)
 	at := simrt.SimNow() + h.l.n.latencyNs
 	if at < h.lastAt {
 		at = h.lastAt
@@ -451,7 +499,7 @@ func (h *half) deliver(fr []byte, forged bool) {
 	simrt.NewTimer(time.Duration(at - simrt.SimNow())) // lets the clock reach the delivery time
 }
 
-func (h *half) onFrame(fr []byte) {
+func (h *half) onFrame(fr []byte, through bool) {
 	l := h.l
 	n := l.n
 	idx := h.nframes
@@ -461,14 +509,7 @@ func (h *half) onFrame(fr []byte) {
 	if h.dir == 1 && (rec.Entry || rec.CP) {
 		simrt.Event("WIRE %s #%d type=%#x seq=%d", l.name(), idx, rec.Type, rec.Seq)
 	}
-	var f *WireFault
-	for i := range n.faults {
-		x := &n.faults[i]
-		if x.Reader == l.reader && x.Conn == l.idx && x.Dir == h.dir && x.Frame == idx {
-			f = x
-			break
-		}
-	}
+	f := h.faultFor(idx)
 	// frames of this link become splice/replay material
 	defer func() {
 		if h.dir == 1 && idx > 0 {
@@ -477,6 +518,13 @@ func (h *half) onFrame(fr []byte) {
 			h.sent[idx].rawCopy = cp
 		}
 	}()
+	if through {
+		if f != nil {
+			panic("HARNESS: a frame with a planned fault was passed through")
+		}
+		h.noteDelivered(fr, false)
+		return
+	}
 	if f == nil {
 		h.deliver(fr, false)
 		h.flushHeld()
